@@ -35,6 +35,17 @@ def cfg : Cfg :=
     linkDeniedRaises := Gen.C14.linkDeniedRaises
     infoGoneDenied := Gen.C14.infoGoneDenied
     wrapPermAD := Gen.C14.wrapPermAD
-    wrapZombieFirst := Gen.C14.wrapZombieFirst }
+    wrapZombieFirst := Gen.C14.wrapZombieFirst
+    absFirst := Gen.C14.absFirst
+    scanLimit := Gen.C14.scanLimit
+    loopOverListdir := Gen.C14.loopOverListdir
+    fdPathsExact := Gen.C14.fdPathsExact
+    linkSkipErrnos := Gen.C14.linkSkipErrnos
+    linkGoneExtra := Gen.C14.linkGoneExtra
+    linkSkipClasses := Gen.C14.linkSkipClasses
+    infoGoneExtra := Gen.C14.infoGoneExtra
+    numFdsLenListdir := Gen.C14.numFdsLenListdir
+    numFdsCap := Gen.C14.numFdsCap
+    ioIterFile := Gen.C14.ioIterFile }
 
 end Psutil.C14
